@@ -58,9 +58,10 @@ func h(b []byte) string {
 
 // ---------------------------------------------------------------------------- NDJSON
 type recorder struct {
-	f *os.File
-	w *bufio.Writer
-	n int
+	mu sync.Mutex // events are also emitted by datastore hooks / the concurrent writer (conc_test.go)
+	f  *os.File
+	w  *bufio.Writer
+	n  int
 }
 
 func newRecorder(t *testing.T, env string) *recorder {
@@ -79,6 +80,8 @@ func (r *recorder) emit(m map[string]any) {
 	if err != nil {
 		panic(err)
 	}
+	r.mu.Lock()
+	defer r.mu.Unlock()
 	r.w.Write(b)
 	r.w.WriteByte('\n')
 	r.n++
@@ -264,8 +267,15 @@ type played struct {
 	Items []item `json:"items"`
 }
 
+// itemSource concretises responder behaviours (fixture: one chain whose table changes at every instance;
+// laWorld in conc_test.go: a chain with a chosen pattern of power-table changes).
+type itemSource interface {
+	items(first uint64, kinds []string) []item
+}
+
 type evil struct {
-	fx     *fixture
+	fx     itemSource
+	onReq  func(k int) // called with the number of the request just received (1-based), before responding
 	mu     sync.Mutex
 	script []aresp
 	k      int
@@ -303,6 +313,9 @@ func (e *evil) handle(s network.Stream) {
 		ar = &e.script[e.k]
 	}
 	e.k++
+	if e.onReq != nil {
+		e.onReq(e.k)
+	}
 	if ar == nil || ar.Mode == "reset" {
 		e.mu.Unlock()
 		_ = s.Reset()
